@@ -23,6 +23,11 @@ def gen_case(rng: random.Random, i: int, thorough: bool):
     p["alt_ft"] = rng.choice([0.0, 500.0, 3000.0])
     d_yd = rng.choice([10.0, 25.0, 50.0, 100.0, 100.0, 200.0, 300.0, 500.0, rng.uniform(10, 700), rng.uniform(700, 1500)])
     prev = rng.choice([0.0, 0.0, 0.001, 0.02, -0.003])
+    if i % 3 == 1:
+        # the wind changes INSIDE the zero distance (different down-range components before and after)
+        d_ft = d_yd * 3.0
+        p["winds"] = [[rng.choice([15.0, 30.0]), rng.choice([180.0, 160.0, 90.0]), round(d_ft * rng.uniform(0.3, 0.7), 1)],
+                      [rng.choice([15.0, 30.0]), rng.choice([0.0, 20.0, 270.0]), 1e8]]
     cfg = {"max_calc_step_size_feet": rng.choice([1.0, 2.0])} if not (thorough and rng.random() < 0.3) else {}
     if i % 4 == 3:
         # a small iteration cap and various accuracies: the search is cut short, the exit protocol (return only when the
@@ -61,6 +66,15 @@ def run_case(case, tid):
         reachable = True
     except m.RangeError:
         reachable = False
+    # "does not fail" is only demanded with a margin of reach: at the very edge of the projectile's range (a sphere at 50 fps)
+    # the arc needed to hit may itself run into the limits, which the statement's definition of reach does not see
+    comfortably = False
+    if reachable:
+        try:
+            calc.fire(probe, U.Foot(1.25 * X), U.Foot(1.25 * X))
+            comfortably = True
+        except m.RangeError:
+            pass
     stored_before = shot.weapon.zero_elevation
     sb = (float(stored_before.raw_value).hex(), id(stored_before))
     rec = integ.Recorder(keep_integrate=False).install()
@@ -68,7 +82,24 @@ def run_case(case, tid):
     rec.remove()
     z = rec.zcalls[-1] if rec.zcalls else None
     # "does not fail for reachable targets" presumes the documented iteration budget: with a smaller cap only the protocol is checked
-    demand = bool(reachable and cfg.cMaxIterations >= 20)
+    demand = bool(comfortably and cfg.cMaxIterations >= 20)
+    if demand and o[0] != "ok":
+        # Passing the aim point's horizontal distance says nothing about its HEIGHT: a slow projectile on an uphill line may be
+        # unable to climb to the aim point at any elevation.  Before demanding success, establish with the solver itself (fire,
+        # not the zero finder) that some elevation puts the trajectory on or above the sight line at the aim point.
+        hittable = False
+        tanl = math.tan(look)
+        for k in range(1, 31):
+            pr = shots.build_shot(dict(p, zero_rad=math.radians(2.0 * k), rel_rad=0.0))
+            try:
+                hr_ = calc.fire(pr, U.Foot(X), U.Foot(X))
+                row_ = hr_.trajectory[-1]
+                if (row_.distance >> U.Foot) >= X * (1 - 1e-9) and (row_.height >> U.Foot) >= X * tanl:
+                    hittable = True
+                    break
+            except m.RangeError:
+                continue
+        demand = hittable
     lines = [{"tid": tid, "ev": "ZBegin", "reachable": demand, "maxIter": int(cfg.cMaxIterations)}]
     if z is not None:
         for it in z["iters"]:
@@ -188,6 +219,8 @@ def run(chk: core.Check, replay=None) -> None:
             chk.stratum("miss_observed")
         if case["prev_zero_rad"] != 0.0:
             chk.stratum("previous_zero_nonzero")
+        if len(case["shot"]["winds"]) >= 2 and case["shot"]["winds"][0][2] < case["d_yd"] * 3.0:
+            chk.stratum("wind_changes_inside_zero_distance")
         if case["cfg"].get("cMaxIterations"):
             chk.stratum("small_iteration_cap_" + info["outcome"].split(":")[0])
     fails = core.validate_trace(chk, "Trace_ZeroFinder", lines, "set_weapon_zero calls")
@@ -201,7 +234,7 @@ def run(chk: core.Check, replay=None) -> None:
     chk.sample({k: v for k, v in infos[1].items()})
     chk.sample({"trace_lines": lines[:4]})
     chk.require_strata(["outcome_Returned", "outcome_RangeErr", "reachable", "unreachable", "look_level", "look_mild", "look_steep",
-                        "miss_observed", "previous_zero_nonzero", "small_iteration_cap_ZeroErr"])
+                        "miss_observed", "previous_zero_nonzero", "small_iteration_cap_ZeroErr", "wind_changes_inside_zero_distance"])
     chk.exhaustive = False
     chk.rule.append("seeded un-canted shots (G1/G7/.. tables, 600-4000 fps, sight heights -2..6 in, look angles 0, +-5..+-59 deg, 0-2 "
                     "winds, previously stored zero 0 / small / large / negative) x zero distances 10 yd - 1500 yd, plus unreachable "
